@@ -21,6 +21,7 @@ from lib.straxlib import strax  # first strax import of the process: sets the pr
 import numpy as np
 
 ID = "C18"
+T0 = 1_700_000_000_000_000_137   # epoch-scale time offset (int64-safe; float64 spacing there is 256)
 LEAN_MODULES = ["StraxModel.Props.C18"]
 TRUSTED = [
     "modelled not verified: numba/numpy semantics of the jitted kernels (negative slice bounds, negative indexing, "
@@ -910,6 +911,60 @@ def run(ctx):
     ctx.correspond("baseline", cases, impl_baseline, op_baseline, oracle_baseline, nontrivial=lambda c, o: o.startswith("ok"),
                    rule="raw pulses around 100 ADC counts, baseline_samples 1/2/4/8 (clamped by the record length, a power of two, so the mean is dyadic), flip on/off, dropped 0th fragments with and without allow_sloppy_chunking",
                    branch=lambda c, o: ("sloppy" if c["sloppy"] else "strict") + ":" + ("err" if o.startswith("err") else ("nan" if "nan" in o else "ok")))
+
+    # 8. epoch-scale timestamps: the same kinds of cases with every record time shifted to a real nanosecond epoch.
+    # Times near 0 hide integer -> float64 regressions (exact below 2**53, off by up to 256 ns at 1.7e18).
+    def shifted(case):
+        return dict(case, records=[dict(r, t=r["t"] + T0) for r in case["records"]])
+
+    hcases, lcases, rcases, ccases, icases = [], [], [], [], []
+    for _ in range(ctx.pick(150, 1500)):
+        spr = rng.choice(sprs + [big])
+        nch = rng.randint(1, 3)
+        amp, hon, kind = gen_thresholds(rng, nch)
+        recs = gen_layout(rng, spr, nch, max_pulses=2, rms_choices=RMS_CHOICES, dts=(1, 2, 10), p_hot=0.5)
+        hcases.append(shifted(dict(spr=spr, records=recs, amp=amp, hon=hon, kind=kind)))
+    for _ in range(ctx.pick(250, 2500)):
+        spr = rng.choice(sprs + [big])
+        recs = gen_layout(rng, spr, rng.randint(1, 3), max_pulses=3, p_drop=rng.choice([0, 0, 0.3]), dts=(1, 2, 10))
+        lcases.append(shifted(dict(spr=spr, records=recs)))
+    for _ in range(ctx.pick(250, 2500)):
+        spr = rng.choice(sprs + [big])
+        nch = rng.randint(1, 3)
+        amp, hon, kind = gen_thresholds(rng, nch)
+        recs = gen_layout(rng, spr, nch, max_pulses=2, p_drop=rng.choice([0, 0, 0, 0.25]), rms_choices=RMS_CHOICES, dts=(1, 2, 10), p_hot=rng.choice([0.15, 0.4]))
+        if recs:
+            rcases.append(shifted(dict(spr=spr, records=recs, amp=amp, hon=hon, le=rng.randint(0, spr), re=rng.randint(0, spr), kind=kind)))
+    for spr in sprs[:2]:   # one pulse of 2..3 fragments, sampled waveforms, every le, re
+        for nfrag in (2, 3):
+            pats = [tuple(rng.randint(0, 1) for _ in range(nfrag * spr)) for _ in range(ctx.pick(2, 10))]
+            for recs in all_single_pulse_layouts(spr, nfrag, pats):
+                for le in range(spr + 1):
+                    for re in range(spr + 1):
+                        rcases.append(shifted(dict(spr=spr, records=recs, amp=["s", q(1)], hon=["s", q(0)], le=le, re=re, kind="scalar")))
+    for _ in range(ctx.pick(100, 1000)):
+        spr = rng.choice(sprs)
+        recs = gen_layout(rng, spr, rng.randint(1, 2), max_pulses=2, p_hot=0.9, alphabet=(1, 2, 3), dts=(1, 2, 10))
+        hits = []
+        for _ in range(rng.randint(1, 3)):
+            k = rng.randrange(len(recs))
+            l = rng.randint(0, max(0, recs[k]["len"] - 1))
+            hits.append([k, l, rng.randint(l, recs[k]["len"])])
+        ccases.append(shifted(dict(spr=spr, records=recs, hits=hits, le=rng.randint(0, spr), re=rng.randint(0, spr))))
+    for _ in range(ctx.pick(40, 400)):
+        recs = gen_layout(rng, sprs[-1], 2, alphabet=(-3, 1, 2, 5), p_hot=0.7)
+        for r in recs:
+            r["bl"] = rng.choice(FRACS + [(7, 8), (3, 8)])
+        icases.append(shifted(dict(spr=sprs[-1], records=recs)))
+    rule = f"every record time shifted by T0 = {T0} (nanosecond epoch, odd, not representable in float64); dt in {{1,2,10}}; same oracles, full integers compared; "
+    ctx.correspond("epoch/find_hits", hcases, impl_hits, op_hits, oracle_hits, nontrivial=nontrivial_hits, rule=rule + "hit time, max_time", branch=lambda c, o: c["kind"])
+    ctx.correspond("epoch/record_links", lcases, impl_links, op_links, oracle_links, in_hyp=lambda c, o: well_formed(c),
+                   nontrivial=lambda c, o: "|" in o and any(x not in ("-1", "-") for x in o[3:].replace("|", ",").split(",")),
+                   rule=rule + "time adjacency time + samples_per_record*dt; non-trivial = at least one link")
+    ctx.correspond("epoch/reduce", rcases, impl_reduce, op_reduce, oracle_reduce, in_hyp=lambda c, o: well_formed(c),
+                   nontrivial=lambda c, o: o.startswith("ok") and not o.startswith("ok - "), rule=rule + "find_hits -> cut_outside_hits through the links")
+    ctx.correspond("epoch/cut_outside_hits", ccases, impl_cut, op_cut, oracle_cut, in_hyp=lambda c, o: well_formed(c), rule=rule + "arbitrary hits")
+    ctx.correspond("epoch/integrate", icases, impl_integrate, lambda c: f"c18.integrate {recs_tok(c['records'])}", oracle_integrate, rule=rule + "integrate (time-independent)")
 
 
 def search(ctx):
